@@ -604,11 +604,32 @@ def global_rng_use(eng, res, rule="R-GLOBAL-RNG-USE"):
                 if d and d.split(".")[0] == "random" and "random" in m.imports and m.imports["random"][0] == "random":
                     n += 1
                     res.ob(rule, m.name, f"stdlib-random:{m.name}", "no use of the stdlib random module", f"{m.relpath}:{node.lineno}", False, f"{d}() draws from hidden global state")
+            # SciPy keeps a generator of its own on every distribution object (`_random_state`, by default NumPy's hidden
+            # global one): a sampling hook that draws from it ignores the generator the caller supplied
+            if isinstance(node, ast.Attribute) and node.attr in ("_random_state", "random_state") and isinstance(node.ctx, ast.Load):
+                n += 1
+                res.ob(rule, m.name, f"scipy-own-generator:{m.name}:{_ctx_key(node)}", "no draw from the generator SciPy keeps on the distribution object", f"{m.relpath}:{node.lineno}", False,
+                       f"{src(node)} is the distribution object's own generator (NumPy's hidden global state unless set), not the generator handed to the call")
+            if isinstance(node, (ast.FunctionDef,)) and node.name == "_rvs":
+                ps = [a.arg for a in node.args.args + node.args.kwonlyargs]
+                for c in ast.walk(node):
+                    if isinstance(c, ast.Call) and isinstance(c.func, ast.Attribute) and c.func.attr in _DRAWS:
+                        recv = c.func.value
+                        if isinstance(recv, ast.Name) and recv.id in ("np", "numpy", "special", "math", "scipy", "stats"):
+                            continue
+                        n += 1
+                        ok = isinstance(recv, ast.Name) and recv.id == "random_state" and "random_state" in ps
+                        res.ob(rule, m.name, f"rvs-hook-draw:{m.name}:{c.func.attr}", "a sampling hook draws from the random_state it is given", f"{m.relpath}:{c.lineno}", ok,
+                               f"{src(c.func)}: the receiver is not the hook's random_state parameter")
         for al, (srcm, orig) in m.imports.items():
             if srcm == "random" or (srcm == "random" and orig):
                 n += 1
                 res.ob(rule, m.name, f"import-random:{m.name}", "the stdlib random module is not imported", m.relpath, False, "import random")
     return n
+
+
+_DRAWS = {"random", "choice", "uniform", "normal", "standard_normal", "gamma", "standard_gamma", "beta", "binomial", "poisson", "exponential", "integers", "randint",
+          "lognormal", "geometric", "negative_binomial", "shuffle", "permutation", "multinomial", "weibull", "chisquare", "rand", "randn", "random_sample", "triangular"}
 
 
 def _dotted(node):
@@ -685,6 +706,74 @@ def shared_arrays(eng, res, rule="R-SHARED-FIELD"):
     MUT = {"sort", "reverse", "append", "extend", "insert", "pop", "remove", "clear", "fill", "put", "itemset", "resize"}
     n = 0
     bad = []
+
+    def _mutated_bases(fi, fl):
+        """(statement, base expression) of every in-place change in the function's own statements"""
+        for st in own_nodes(fi.node):
+            if isinstance(st, ast.AugAssign) and fl.cfg.has(st):
+                t = st.target
+                yield st, (t.value if isinstance(t, ast.Subscript) else t)
+            elif isinstance(st, ast.Assign) and fl.cfg.has(st):
+                for t in st.targets:
+                    if isinstance(t, ast.Subscript):
+                        yield st, t.value
+            elif isinstance(st, ast.Call) and isinstance(st.func, ast.Attribute) and st.func.attr in MUT and fl.cfg.has(st):
+                yield st, st.func.value
+
+    _mp_cache = {}
+
+    def mutated_params(fi, depth=2):
+        """names of parameters whose argument the function changes in place (through plain aliases and NumPy's
+        asarray / ravel / reshape / view, which hand back the same array when they can) — directly or by handing it on"""
+        from ..effects import ALIAS_CALLS
+
+        if fi.qualname in _mp_cache:
+            return _mp_cache[fi.qualname]
+        _mp_cache[fi.qualname] = {}
+        fl = eng.flow(fi)
+        out = {}
+
+        def param_of(e, at, d=4):
+            if isinstance(e, ast.Call) and callee_name(e) in ALIAS_CALLS and d > 0:
+                base = e.args[0] if (e.args and callee_name(e).startswith("as")) else (e.func.value if isinstance(e.func, ast.Attribute) else None)
+                return param_of(base, at, d - 1) if base is not None else None
+            if isinstance(e, ast.Name) and d > 0:
+                for df in fl.reaching(e.id, at):
+                    if df.kind == "param" and e.id not in ("self", "cls"):
+                        return e.id
+                    if df.kind == "assign" and df.value is not None:
+                        h = param_of(df.value, df.nid, d - 1)
+                        if h:
+                            return h
+            return None
+
+        for st, base in _mutated_bases(fi, fl):
+            h = param_of(base, fl.cfg.node_of(st))
+            if h:
+                out.setdefault(h, st.lineno)
+        if depth > 0:
+            for st in own_nodes(fi.node):
+                if isinstance(st, ast.Call) and fl.cfg.has(st):
+                    for tgt in eng.resolve_call(fi, st):
+                        if not hasattr(tgt, "params") or not hasattr(tgt, "qualname") or tgt.qualname == fi.qualname:
+                            continue
+                        inner = mutated_params(tgt, depth - 1)
+                        if not inner:
+                            continue
+                        ps = [x for x in tgt.params if x not in ("self", "cls")]
+                        for i, a in enumerate(st.args):
+                            if i < len(ps) and ps[i] in inner:
+                                h = param_of(a, fl.cfg.node_of(st))
+                                if h:
+                                    out.setdefault(h, st.lineno)
+                        for kw in st.keywords:
+                            if kw.arg in inner:
+                                h = param_of(kw.value, fl.cfg.node_of(st))
+                                if h:
+                                    out.setdefault(h, st.lineno)
+        _mp_cache[fi.qualname] = out
+        return out
+
     for q in sorted(reach):
         fi = eng.prog.functions.get(q)
         if fi is None:
@@ -723,6 +812,21 @@ def shared_arrays(eng, res, rule="R-SHARED-FIELD"):
                 hit = aliases_field(st.func.value, fl.cfg.node_of(st))
             if hit:
                 bad.append(f"{fi.qualname} line {st.lineno}: in-place change of a value read from .{hit}")
+            # the value is handed to a function that changes its argument in place
+            if isinstance(st, ast.Call) and fl.cfg.has(st) and (st.args or st.keywords):
+                for tgt in eng.resolve_call(fi, st):
+                    if not hasattr(tgt, "params") or not hasattr(tgt, "qualname"):
+                        continue
+                    inner = mutated_params(tgt)
+                    if not inner:
+                        continue
+                    ps = [x for x in tgt.params if x not in ("self", "cls")]
+                    pairs = [(ps[i], a) for i, a in enumerate(st.args) if i < len(ps)] + [(kw.arg, kw.value) for kw in st.keywords if kw.arg]
+                    for pn, a in pairs:
+                        if pn in inner:
+                            h = aliases_field(a, fl.cfg.node_of(st))
+                            if h:
+                                bad.append(f"{fi.qualname} line {st.lineno}: a value read from .{h} is passed as `{pn}` to {tgt.qualname}, which changes that argument in place (line {inner[pn]})")
         n += 1
     where = "; ".join(f".{f} shared at {fi.module.relpath}:{st.lineno}" for f, L in sorted(shared.items()) for fi, st in L[:1])
     res.ob(rule, "package", "no-in-place-change", f"no in-place change of a value read from a field that generation shares with the parsed object ({where})", "-", not bad, "; ".join(bad[:3]))
